@@ -72,7 +72,7 @@ theorem safe_adjustFitness (o : EpochOpts W) (s : Species W) (h : s.orgs ≠ [])
   split
   · next heq =>
     exfalso
-    have hp := (goInsertionSort_perm (fun a b => orgLess b a)
+    have hp := (goSort_perm (fun a b => orgLess b a)
       (s.orgs.map (adjustOrg (if s.age - s.ageOfLastImprovement + 1 - o.dropOffAge = 0 then 1 else
         s.age - s.ageOfLastImprovement + 1 - o.dropOffAge) s.age o s.orgs.length))).length_eq
     unfold sortOrgsDesc at heq
@@ -271,7 +271,7 @@ theorem safe_prepare (o : EpochOpts W) (p : Pop W) (rs : List Nat) (hne : ∀ s 
       ne_of_keys_sub (purgeZero_keys ({ p with species := species1 } : Pop W)).1.subset hne1
     simp only
     generalize purgeZeroOffspringSpecies ({ p with species := species1 } : Pop W) = pz at hpzne hpzo
-    have hperm := goInsertionSort_perm (fun a b => speciesLess b a) pz.species
+    have hperm := goSort_perm (fun a b => speciesLess b a) pz.species
     split
     · next hnil =>
       exfalso
@@ -282,7 +282,7 @@ theorem safe_prepare (o : EpochOpts W) (p : Pop W) (rs : List Nat) (hne : ∀ s 
       have hsorted' : sortSpeciesDesc pz.species = best :: tail := hsorted
       unfold sortSpeciesDesc at hsorted
       have hmem : ∀ s ∈ best :: tail, s ∈ pz.species := by
-        intro s hs; rw [← hsorted] at hs; exact (C01.goInsertionSort_mem _ _ _).mp hs
+        intro s hs; rw [← hsorted] at hs; exact (GoNeat.goSort_mem _ _ _).mp hs
       have hbo := hpzo best (hmem best (by simp))
       split
       · next hn => cases hso : best.orgs with
